@@ -22,14 +22,27 @@ _m(
     "multiple of 90 degrees) or number_knots >= 2; a history case is NON-TRIVIAL when an alignment step displaced some knot "
     "by >= 0.25 px before a judged re-preprocess (class history_knots_moved; history_same_settings_after_move counts those "
     "re-initialised with unchanged settings) or the scan directions were replaced and the re-preprocess used a single knot "
-    "(class history_new_angles_single_knot); distinct = SHA-1 of the canonical JSON of the whole case.",
+    "(class history_new_angles_single_knot); In all three strategies the scan directions are handed over in a drawn container: Python list of floats, list of "
+    "ints, tuple, float64 / float32 array, int64 / int32 / int16 / uint16 / uint32 / uint64 array (integer-valued angles for "
+    "the integer containers, float32-representable ones for float32; the same container is used for the "
+    "scan_direction_degrees setter) - classes angles_as:*; and about one case in five runs with displays ON (Agg backend): "
+    "align_*() with show_merged left at its default True and/or show_images=True, preprocess(show_merged/show_images=True), "
+    "public plot_merged_images() / plot_transformed_images() / plot_convergence() calls between the steps, knot overlay at "
+    "its default - classes plotting_on / plotting_on_knot_outside_canvas (some initial knot lies outside the canvas) / "
+    "plotting_off; the same geometry and fixed point are required.  distinct = SHA-1 of the canonical JSON of the whole case.",
     [
         "scan-direction convention taken from the class docstring + array indexing: angle 0 copies the image unrotated "
         "(fast = +col, slow = +row); angle t applies the proper rotation fast = (-sin t, cos t), slow = (cos t, sin t)",
         "canvas centre = ((H-1)/2, (W-1)/2) of the canvas quantem actually allocates (images_warped.shape); the canvas "
         "size rule itself is not judged",
         "all images of a stack have one shape (preprocess sizes the canvas from images[0] rows and images[1] columns)",
-        "coordinates: 1e-9 px absolute against the float64 closed form (clean tree <= 2e-14 px)",
+        "coordinates: 1e-9 px absolute against the float64 closed form (clean tree <= 3e-14 px); 1e-4 px when the scan "
+        "directions arrive as float32 / int16 / uint16 arrays, for which np.deg2rad itself returns float32 radians (bound "
+        "~7e-6 px, clean tree <= 2.2e-6 px)",
+        "float16 / int8 / uint8 scan-direction arrays are accepted by the API but np.deg2rad turns them into float16 radians "
+        "(coordinates off by up to ~0.05 px on the clean tree): observed, outside the judged domain",
+        "displays: looking at the state (any show_* flag, any public plot_* method) must not change it; plot_convergence has "
+        "no knot overlay and an exception from it is counted, not reported; figures are closed after every case",
         "weight sum: rtol 1e-4 (float32 accumulators; clean tree <= 2.4e-7); centroid of the weight map == canvas centre to "
         "1e-4 px, only judged when every pixel is >= int(4 sigma + 0.5) + 2 px inside the canvas (no wrap, no reflection); "
         "clean tree <= 7e-8 px",
